@@ -410,6 +410,51 @@ def descloop_stream(sh, backend, n, mech_fn):
       if shape[1] >= 1 and shape[2] >= 2: sh.count("descending_loops_with_positive_end_and_step_2plus")
 
 
+def gen_castuse_design(rng):
+  """width helpers and casts as OPERANDS: zext / sext / trunc / BitsN( ) to the width the (compound) operand already has, next to an
+  operator that binds tighter than the one inside; slices and bit indices applied to the result of a cast or helper; python bools
+  kept as component attributes (alone and inside lists) used as conditions and operands"""
+  W = rng.choice([4, 8, 8, 13])
+  L = ["from pymtl3 import *", "class CUTop(Component):", "  def construct(s):",
+       f"    s.a = InPort({W}); s.b = InPort({W}); s.c = InPort({W}); s.sel = InPort(1); s.wide = InPort({W + 5})",
+       f"    s.EN = {rng.choice([True, False])}; s.FLAGS = [{rng.choice([True, False])}, {rng.choice([True, False])}, True]"]
+  n = rng.randrange(2, 6)
+  L.append(f"    s.o = [OutPort({W}) for _ in range({n})]")
+  L += ["    @update", "    def up():"]
+  shapes = []
+  cast = f"Bits{W}" 
+  for j in range(n):
+    k = rng.choice(["noop-helper", "noop-helper", "noop-cast", "slice-of-cast", "bool-attr"])
+    inner = rng.choice(["s.a + s.b", "s.a | s.b", "s.a - s.b", "s.a ^ s.b", "(s.a if s.sel else s.b)", "~s.a", "s.a & s.b"])
+    if k in ("noop-helper", "noop-cast"):
+      f = rng.choice(["zext", "sext", "trunc"])
+      x = f"{f}({inner}, {W})" if k == "noop-helper" else f"{cast}({inner})"
+      e = rng.choice([f"{x} * s.c", f"s.c - {x}", f"{x} & s.c", f"s.c * {x}", f"~{x}", f"{x} << 1", f"s.c + {x}", f"{x} - s.c",
+                      f"zext(reduce_xor({x}), {W})" if W > 1 else x, f"{x} if s.sel else s.c"])
+    elif k == "slice-of-cast":
+      lo = rng.randrange(0, 3); hi = min(W, lo + rng.randrange(1, 4))
+      src = rng.choice([f"trunc(s.wide, {W})", f"zext(s.a, {W + 4})", f"sext(s.a, {W + 4})", f"{cast}(s.a)", f"trunc({inner}, {W})", f"zext({inner}, {W})"])
+      sel = f"[{lo}:{hi}]" if rng.random() < 0.7 else f"[{lo}]"
+      e = f"zext({src}{sel}, {W})" if rng.random() < 0.7 or sel.count(":") == 0 else f"sext({src}{sel}, {W})"
+    else:
+      flag = rng.choice(["s.EN", "s.FLAGS[0]", "s.FLAGS[1]"])
+      e = rng.choice([f"s.a if {flag} else s.b", f"(s.a if {flag} else s.b) + s.c", f"s.a & sext(Bits1({flag}), {W})" ])
+    L.append(f"      s.o[{j}] @= {e}")
+    shapes.append(k)
+  return "\n".join(L) + "\n", "+".join(sorted(set(shapes)))
+
+
+def castuse_stream(sh, backend, n, mech_fn):
+  for case in range(n):
+    rng = sh.rng("castuse", case)
+    src, shape = gen_castuse_design(rng)
+    before = sh.counters.get("rejected_by_translator", 0)
+    directed(sh, backend, f"castuse-{case}", src, "CUTop", mech_fn)
+    if sh.counters.get("rejected_by_translator", 0) > before: sh.count("castuse_designs_refused")
+    else: sh.count("castuse_designs_cosimulated")
+    for k in shape.split("+"): sh.count("castuse:" + k)
+
+
 def localname_stream(sh, backend, n, mech_fn):
   for case in range(n):
     rng = sh.rng("localname", case)
